@@ -165,9 +165,9 @@ fn check(text: &[u8], rep: &mut Reporter, case_idx: u64) {
                     rep.violation(case_idx, "sink", &format!("after a reported failure the accepted bytes are not a prefix of the canonical serialisation ({kind})"), mk(&sink));
                 }
                 if matches!(sch, Schedule::Chunk(_) | Schedule::ShortOnce(_)) {
-                    // a sink that merely accepts fewer bytes per call obeys the contract; failing is not
-                    // forbidden by the statement's first clause, but it would make chunking observable
-                    rep.violation(case_idx, "sink", &format!("write failed although the sink only accepted fewer bytes per call ({kind})"), mk(&sink));
+                    // failing on a sink that merely accepts fewer bytes per call is not forbidden
+                    // by the statement (its first clause is conditional on success); counted only
+                    rep.count("writes_failed_on_a_merely_short_sink", 1);
                 }
             }
         }
